@@ -100,6 +100,11 @@ func runC19(t *rapid.T) {
 	cfg.TextAsBytes = rapid.Bool().Draw(t, "textbytes")
 	cfg.BoolAsInt = rapid.Bool().Draw(t, "boolint")
 	cfg.FloatAsText = rapid.IntRange(0, 3).Draw(t, "floattext") == 0
+	if cfg.FloatAsText {
+		// the StringToFloat coercion is documented for drivers that deliver the
+		// number as a Go string; a []byte delivery is outside what it promises
+		cfg.TextAsBytes = false
+	}
 	tr.Driver = cfg
 	if rapid.IntRange(0, 3).Draw(t, "useprecision") == 0 {
 		tr.Precision = rapid.IntRange(1, 6).Draw(t, "precision")
